@@ -9,11 +9,16 @@ run's plot log, and the run is stored once when it stops."
 
 All statements are about `OPM.Reconnect.step` / `run` (the aggregator's handlers, its engine map and its database
 rows), for every repository variant `c : Cfg` and for *all* histories — lists of `register`, `disconnect`,
-`restart` (graceful: shutdown stores the recent engines, memory is dropped, database kept), `start r`, `stop r`,
+`restart` (graceful: shutdown stores the recent engines, memory is dropped, database kept), `crash` (the process dies
+without any shutdown hook, memory is dropped, database kept), `start r`, `stop r`,
 `tags` (one value of the reading X and optionally a value of the System State tag, which may lag or lead the run
 messages in any way).  `assoc s` is the run the aggregator associates with the engine: the run of its engine data while it is
-registered, else the run id in its RecentEngines row.  `quiet r` = every operation except a RunStoppedMsg and a
-RunStartedMsg of another run, i.e. everything that can happen "at every point of run r" without ending it.
+registered, else the run id in its RecentEngines row.  `quiet c r` = every operation except a RunStoppedMsg and a
+RunStartedMsg of another run, i.e. everything that can happen "at every point of run r" without ending it — a crash
+counts among them only for the code that writes the RecentEngines row with the run messages
+(`c.persistRunEvents`, fixes/C28-persist-active-run.diff).  The statement *with* crashes is `C28_full`; it holds of
+that code (`C28_full_holds`), is false of the code that writes the row on disconnect and shutdown only
+(`C28_counterexample`), and without crashes holds of both (`C28_partial` = the theorems of sections 1–3).
 -/
 namespace OPM.C28
 open OPM.Reconnect
@@ -22,33 +27,45 @@ open OPM.Reconnect
 
 /-- While run `r` is active, no sequence of registrations, disconnects, aggregator restarts, tag messages and repeated
 RunStartedMsg of `r` changes the run associated with the engine. -/
-theorem run_id_survives (c : Cfg) (r : Nat) : ∀ (h : List Op) (s : State), assoc s = some r →
-    (∀ op ∈ h, quiet r op = true) → assoc (run c s h) = some r := by
+theorem run_id_survives (c : Cfg) (r : Nat) : ∀ (h : List Op) (s : State), Sync c s → assoc s = some r →
+    (∀ op ∈ h, quiet c r op = true) → assoc (run c s h) = some r := by
   intro h
   induction h with
-  | nil => intro s ha _; exact ha
+  | nil => intro s _ ha _; exact ha
   | cons op h ih =>
-    intro s ha hq
+    intro s hs ha hq
     simp only [run, List.foldl_cons]
-    exact ih _ (assoc_step_quiet c s op r ha (hq op (by simp))) (fun o ho => hq o (by simp [ho]))
+    exact ih _ (sync_step c s op hs) (assoc_step_quiet c s op r hs ha (hq op (by simp)))
+      (fun o ho => hq o (by simp [ho]))
+
+/-- `Sync` (the row names the current run, where the code keeps it up to date) holds in every reachable state. -/
+theorem sync_run (c : Cfg) : ∀ (h : List Op) (s : State), Sync c s → Sync c (run c s h) := by
+  intro h
+  induction h with
+  | nil => intro s hs; exact hs
+  | cons op h ih => intro s hs; exact ih _ (sync_step c s op hs)
+
+theorem sync_init (c : Cfg) : Sync c init := by
+  intro _ m hm; simp [init] at hm
 
 /-- Whenever the engine is registered during such a history, its engine data is in run `r`. -/
-theorem same_run_whenever_registered (c : Cfg) (r : Nat) (h : List Op) (s : State) (ha : assoc s = some r)
-    (hq : ∀ op ∈ h, quiet r op = true) (m : Mem) (hm : (run c s h).mem = some m) : m.run = some r := by
-  have := run_id_survives c r h s ha hq
+theorem same_run_whenever_registered (c : Cfg) (r : Nat) (h : List Op) (s : State) (hs : Sync c s)
+    (ha : assoc s = some r) (hq : ∀ op ∈ h, quiet c r op = true) (m : Mem) (hm : (run c s h).mem = some m) :
+    m.run = some r := by
+  have := run_id_survives c r h s hs ha hq
   simpa [assoc, hm] using this
 
 /-- …and whenever it is not, its next registration resumes run `r`. -/
-theorem reregistration_resumes_run (c : Cfg) (r : Nat) (h : List Op) (s : State) (ha : assoc s = some r)
-    (hq : ∀ op ∈ h, quiet r op = true) :
+theorem reregistration_resumes_run (c : Cfg) (r : Nat) (h : List Op) (s : State) (hs : Sync c s)
+    (ha : assoc s = some r) (hq : ∀ op ∈ h, quiet c r op = true) :
     ∃ m, (run c s (h ++ [.register])).mem = some m ∧ m.run = some r := by
-  have hq' : ∀ op ∈ h ++ [Op.register], quiet r op = true := by
+  have hq' : ∀ op ∈ h ++ [Op.register], quiet c r op = true := by
     intro op ho
     simp only [List.mem_append, List.mem_singleton] at ho
     rcases ho with ho | ho
     · exact hq op ho
     · subst ho; rfl
-  have ha' := run_id_survives c r _ s ha hq'
+  have ha' := run_id_survives c r _ s hs ha hq'
   have hreg : (run c s (h ++ [.register])).mem ≠ none := by
     simp only [run, List.foldl_append, List.foldl_cons, List.foldl_nil]
     generalize List.foldl (fun s op => (step c s op).1) s h = s₁
@@ -60,12 +77,8 @@ theorem reregistration_resumes_run (c : Cfg) (r : Nat) (h : List Op) (s : State)
 /-- A started run is the associated run: after `start r` on a registered engine, `assoc = some r`. -/
 theorem start_associates (c : Cfg) (s : State) (r : Nat) (m : Mem) (hm : s.mem = some m) :
     assoc (step c s (.start r)).1 = some r := by
-  cases hr : m.run with
-  | none => simp [step, hm, hr, assoc]
-  | some q =>
-    by_cases e : q = r
-    · simp [step, hm, hr, e, assoc]
-    · simp [step, hm, hr, e, assoc]
+  obtain ⟨m', h1, h2⟩ := startRun_mem c s m r hm
+  simp [step, hm, assoc, h1, h2]
 
 example : (run {} init [.register, .start 1, .disconnect, .register]).mem = some { run := some 1 } := by decide
 example : (run {} init [.register, .start 1, .tags (some 1) 4 (some 0), .restart, .register]).mem = some { run := some 1 } := by
@@ -114,7 +127,7 @@ theorem first_tags_after_reconnect_recorded (c : Cfg) (h₀ : List Op) (r t : Na
   simp only [assoc, hgone] at ha
   have hrow := join_eq_some ha
   have hl : r ∈ s.plotLogs := w.rowLog r hrow
-  obtain ⟨i, hg, hv⟩ := tagsChanged_recorded { s with mem := some (restored s) } (restored s) r t st
+  obtain ⟨i, hg, hv⟩ := tagsChanged_recorded c { s with mem := some (restored s) } (restored s) r t st
     (by simp [restored, hrow]) hl (Or.inl (by simp [restored, hrow]))
   have ht : rowTime (restored s) t st = t := rowTime_eq _ _ _ (Or.inr (Or.inl (by simp [restored, hrow])))
   rw [ht] at hv
@@ -124,14 +137,14 @@ theorem first_tags_after_reconnect_recorded (c : Cfg) (h₀ : List Op) (r t : Na
 in every reachable state (so also long after a reconnect). -/
 theorem tags_recorded_in_run_plot_log (c : Cfg) (h₀ : List Op) (m : Mem) (r t : Nat) (st : Option Nat)
     (hm : (run c init h₀).mem = some m) (hr : m.run = some r)
-    (hp : m.lastPersisted = none ∨ ∃ lp, m.lastPersisted = some lp ∧ lp < t) :
+    (hp : m.lastPersisted = none ∨ ∃ lp, m.lastPersisted = some lp ∧ lp + c.interval < t) :
     ∃ i, (run c init h₀).plotLogs[i]? = some r ∧
       (run c init (h₀ ++ [.tags (some r) t st])).values = (run c init h₀).values ++ [(i, rowTime m t st)] := by
   have w := wf_reachable c h₀ init wf_init
   simp only [run, List.foldl_append, List.foldl_cons, List.foldl_nil]
   simp only [run] at hm w
   generalize List.foldl (fun s op => (step c s op).1) init h₀ = s at *
-  obtain ⟨i, hg, hv⟩ := tagsChanged_recorded s m r t st hr (w.memLog m r hm hr) hp
+  obtain ⟨i, hg, hv⟩ := tagsChanged_recorded c s m r t st hr (w.memLog m r hm hr) hp
   exact ⟨i, hg, by simpa [step, hm] using hv⟩
 
 /-- The row carries the message's own tick time, unless an earlier message left a newer System State time behind
@@ -161,44 +174,38 @@ example : (run {} init [.register, .start 1, .tags (some 1) 5 none, .disconnect,
 
 /-! ## 3. The run is stored once when it stops -/
 
-theorem count_run_done (c : Cfg) (r : Nat) : ∀ (h : List Op) (s : State), Done r s → (∀ op ∈ h, op ≠ .start r) →
+theorem count_run_done (c : Cfg) (r : Nat) : ∀ (h : List Op) (s : State), Sync c s → Done r s →
+    (∀ op ∈ h, op ≠ .start r ∧ (op = .crash → c.persistRunEvents = true)) →
     (run c s h).recentRuns.count r = s.recentRuns.count r := by
   intro h
   induction h with
-  | nil => intro s _ _; rfl
+  | nil => intro s _ _ _; rfl
   | cons op h ih =>
-    intro s d hn
+    intro s hs d hn
     simp only [run, List.foldl_cons]
-    have := done_step c s op r d (hn op (by simp))
+    have := done_step c s op r hs d (hn op (by simp)).1 (hn op (by simp)).2
     rw [← this.2]
-    exact ih _ this.1 (fun o ho => hn o (by simp [ho]))
+    exact ih _ (sync_step c s op hs) this.1 (fun o ho => hn o (by simp [ho]))
 
-theorem recentRuns_quiet (c : Cfg) (r : Nat) : ∀ (h : List Op) (s : State), assoc s = some r →
-    (∀ op ∈ h, quiet r op = true) → (run c s h).recentRuns = s.recentRuns := by
+theorem recentRuns_quiet (c : Cfg) (r : Nat) : ∀ (h : List Op) (s : State), Sync c s → assoc s = some r →
+    (∀ op ∈ h, quiet c r op = true) → (run c s h).recentRuns = s.recentRuns := by
   intro h
   induction h with
-  | nil => intro s _ _; rfl
+  | nil => intro s _ _ _; rfl
   | cons op h ih =>
-    intro s ha hq
+    intro s hs ha hq
     simp only [run, List.foldl_cons]
     have h1 := recentRuns_step_quiet c s op r ha (hq op (by simp))
-    have h2 := assoc_step_quiet c s op r ha (hq op (by simp))
+    have h2 := assoc_step_quiet c s op r hs ha (hq op (by simp))
     rw [← h1]
-    exact ih _ h2 (fun o ho => hq o (by simp [ho]))
+    exact ih _ (sync_step c s op hs) h2 (fun o ho => hq o (by simp [ho]))
 
 /-- RunStartedMsg `r` on a registered engine stores at most the *previous* run: the number of RecentRuns rows of `r`
 itself does not change when `r` is not the previous run. -/
 theorem start_count (c : Cfg) (s : State) (r : Nat) (m : Mem) (hm : s.mem = some m) :
     (step c s (.start r)).1.recentRuns.count r = s.recentRuns.count r := by
-  simp only [step, hm, createPlotLog_recentRuns]
-  cases hr : m.run with
-  | none => rfl
-  | some q =>
-    simp only
-    split
-    · rfl
-    · rename_i hne
-      exact storeRecentRun_count_ne c s q r hne
+  simp only [step, hm, persistRow_recentRuns, createPlotLog_recentRuns]
+  exact startRun_count_self c s m r
 
 /-- **The run is stored exactly once.**  From any state `s` with the engine registered and no RecentRuns row for
 `r`: the run is started (`start r`); then anything that does not end it happens (`mid`: registrations, disconnects,
@@ -206,22 +213,24 @@ aggregator restarts, tag messages, repeated RunStartedMsg of `r`), at the end of
 run stops (`stop r`); then anything at all happens except that the same run id is started again (`tail`).  At every
 point of `tail` — in particular at its end — RecentRuns has exactly one row for `r`; before the stop it has none. -/
 theorem run_stored_exactly_once (c : Cfg) (s : State) (r : Nat) (m : Mem) (mid tail : List Op)
-    (hreg : s.mem = some m) (hfresh : r ∉ s.recentRuns)
-    (hmid : ∀ op ∈ mid, quiet r op = true)
+    (hsync : Sync c s) (hreg : s.mem = some m) (hfresh : r ∉ s.recentRuns)
+    (hmid : ∀ op ∈ mid, quiet c r op = true)
     (hback : (run c s (.start r :: mid)).mem ≠ none)
-    (htail : ∀ op ∈ tail, op ≠ .start r) :
+    (htail : ∀ op ∈ tail, op ≠ .start r ∧ (op = .crash → c.persistRunEvents = true)) :
     (run c s (.start r :: mid)).recentRuns.count r = 0 ∧
     (run c s (.start r :: mid ++ .stop r :: tail)).recentRuns.count r = 1 := by
   -- after the start
+  have hs₁ : Sync c (step c s (.start r)).1 := sync_step c s _ hsync
   have ha₁ : assoc (step c s (.start r)).1 = some r := start_associates c s r m hreg
   have hc₁ : (step c s (.start r)).1.recentRuns.count r = 0 := by
     rw [start_count c s r m hreg]; exact List.count_eq_zero.mpr hfresh
   -- through mid
   have hrun₁ : run c s (.start r :: mid) = run c (step c s (.start r)).1 mid := by simp [run]
+  have hs₂ : Sync c (run c s (.start r :: mid)) := by rw [hrun₁]; exact sync_run c mid _ hs₁
   have ha₂ : assoc (run c s (.start r :: mid)) = some r := by
-    rw [hrun₁]; exact run_id_survives c r mid _ ha₁ hmid
+    rw [hrun₁]; exact run_id_survives c r mid _ hs₁ ha₁ hmid
   have hc₂ : (run c s (.start r :: mid)).recentRuns.count r = 0 := by
-    rw [hrun₁, recentRuns_quiet c r mid _ ha₁ hmid]; exact hc₁
+    rw [hrun₁, recentRuns_quiet c r mid _ hs₁ ha₁ hmid]; exact hc₁
   refine ⟨hc₂, ?_⟩
   -- the stop
   have hsplit : run c s (.start r :: mid ++ .stop r :: tail) =
@@ -235,14 +244,15 @@ theorem run_stored_exactly_once (c : Cfg) (s : State) (r : Nat) (m : Mem) (mid t
     have hr₂ : m₂.run = some r := by simpa [assoc, hm₂] using ha₂
     have hnot : r ∉ s₂.recentRuns := List.count_eq_zero.mp hc₂
     have hstop : (step c s₂ (.stop r)).1 =
-        { storeRecentRun c s₂ r with mem := some { m₂ with run := none, lastPersisted := none } } := by
+        persistRow c { storeRecentRun c s₂ r with mem := some { m₂ with run := none, lastPersisted := none } } := by
       simp [step, hm₂, hr₂]
     have hdone : Done r (step c s₂ (.stop r)).1 := by
       rw [hstop]
+      apply done_persistRow
       exact ⟨by intro m' h1 h2; simp only [Option.some.injEq] at h1; subst h1; simp at h2,
              by intro h; simp at h⟩
-    rw [count_run_done c r tail _ hdone htail, hstop]
-    simp only
+    rw [count_run_done c r tail _ (sync_step c s₂ _ hs₂) hdone htail, hstop]
+    simp only [persistRow_recentRuns]
     rw [storeRecentRun_fresh c s₂ r hnot]
     simp [List.count_append, hc₂]
 
@@ -254,14 +264,70 @@ theorem stop_while_unregistered_refused (c : Cfg) (s : State) (r : Nat) (h : s.m
 
 example : (run {} init [.register, .start 1, .tags (some 1) 5 (some 1), .disconnect, .register, .restart, .register, .stop 1,
     .disconnect, .register, .restart, .register, .start 2]).recentRuns = [1] := by decide
-example : (run ⟨true, true⟩ init [.register, .start 1, .disconnect, .register, .start 1, .stop 1, .restart,
+example : (run { plotGuarded := true, recentGuarded := true } init [.register, .start 1, .disconnect, .register, .start 1, .stop 1, .restart,
     .register]).recentRuns = [1] := by decide
 
-/-! ## Boundary of the statement: the restart is graceful
+/-! ## 4. With crashes of the aggregator process
 
-If the process dies without `Aggregator.shutdown()` the RecentEngines row is not written and a run that started
-since the last disconnect cannot be resumed; this is outside the quantifier of C28 ("state reloaded from its
-database") and is shown here only to make the assumption visible. -/
-example : assoc { (run {} init [.register, .start 1]) with mem := none } = none := by decide
+`properties.jsonl` quantifies over aggregator restarts at every point of a run, and a process can die without running
+its shutdown hook.  `quietFull r` = everything that does not end run `r`, *including* a crash. -/
+
+def quietFull (r : Nat) : Op → Bool
+  | .register | .disconnect | .restart | .crash | .tags _ _ _ => true
+  | .start q => q == r
+  | .stop _ => false
+
+/-- **C28, clause "the same run under the same run id", with crashes**: from every reachable state in which run `r` is
+the run of the engine, every history that does not end `r` — registrations, disconnects, graceful restarts, crashes, tag
+messages — leaves `r` the associated run (so the next registration resumes it, tag data goes to its plot log and it is
+stored once at its stop by sections 2 and 3). -/
+def C28_full (c : Cfg) : Prop :=
+  ∀ (h₀ h : List Op) (r : Nat), assoc (run c init h₀) = some r → (∀ op ∈ h, quietFull r op = true) →
+    assoc (run c init (h₀ ++ h)) = some r
+
+theorem quietFull_of_persist (c : Cfg) (hp : c.persistRunEvents = true) (r : Nat) (op : Op)
+    (h : quietFull r op = true) : quiet c r op = true := by
+  cases op <;> simp_all [quietFull, quiet]
+
+/-- **`C28_full` holds of the code that writes the RecentEngines row with the run messages**
+(fixes/C28-persist-active-run.diff), whatever the other settings. -/
+theorem C28_full_holds (c : Cfg) (hp : c.persistRunEvents = true) : C28_full c := by
+  intro h₀ h r ha hq
+  have : run c init (h₀ ++ h) = run c (run c init h₀) h := by simp [run, List.foldl_append]
+  rw [this]
+  exact run_id_survives c r h _ (sync_run c h₀ init (sync_init c)) ha
+    (fun op ho => quietFull_of_persist c hp r op (hq op ho))
+
+/-- **`C28_full` is false of the code that writes the row on disconnect and shutdown only**: the engine registers, a
+run starts, the aggregator process dies and comes back — the run is gone (the engine's later tag data for it is
+dropped and its RunStoppedMsg stores nothing). -/
+theorem C28_counterexample : ¬ C28_full {} := by
+  intro h
+  have := h [.register, .start 1] [.crash] 1 (by decide) (by decide)
+  revert this
+  decide
+
+/-- the full observable consequence of that history on the unrepaired code: run not resumed, tag data not recorded,
+nothing stored at the stop -/
+example : (run {} init [.register, .start 1, .tags (some 1) 5 none, .crash, .register, .tags (some 1) 6 none,
+    .stop 1]).values = [(0, 5)] ∧
+    (run {} init [.register, .start 1, .tags (some 1) 5 none, .crash, .register, .tags (some 1) 6 none,
+    .stop 1]).recentRuns = [] := by decide
+/-- …and on the repaired code: resumed, recorded, stored once -/
+example : (run { persistRunEvents := true } init [.register, .start 1, .tags (some 1) 5 none, .crash, .register,
+    .tags (some 1) 6 none, .stop 1]).values = [(0, 5), (0, 6)] ∧
+    (run { persistRunEvents := true } init [.register, .start 1, .tags (some 1) 5 none, .crash, .register,
+    .tags (some 1) 6 none, .stop 1]).recentRuns = [1] := by decide
+
+/-- **`C28_partial`: without crashes the statement holds of both codes** (this is `run_id_survives` from a reachable
+state; sections 2 and 3 give the other two clauses under the same restriction). -/
+theorem C28_partial (c : Cfg) (h₀ h : List Op) (r : Nat) (ha : assoc (run c init h₀) = some r)
+    (hq : ∀ op ∈ h, quietFull r op = true ∧ op ≠ .crash) : assoc (run c init (h₀ ++ h)) = some r := by
+  have : run c init (h₀ ++ h) = run c (run c init h₀) h := by simp [run, List.foldl_append]
+  rw [this]
+  refine run_id_survives c r h _ (sync_run c h₀ init (sync_init c)) ha ?_
+  intro op ho
+  obtain ⟨h1, h2⟩ := hq op ho
+  cases op <;> simp_all [quietFull, quiet]
 
 end OPM.C28
